@@ -351,11 +351,20 @@ func driveHashTwins(t *Tracer, r Rng, k int) {
 		}
 		evOverlapSp(t, w, []ID{tw.A, tw.B}, []ID{probe}, true)
 		te := ext[r.Intn(len(ext))]
+		if i == 0 {
+			te = ext[len(ext)-1] // the 64-bit twin at least once per run
+		}
 		evOverlapExt(t, w, []ID{te.A, te.B}, []ID{te.B}, true)
 		evChangeZoomExt(t, w, []ID{te.A, te.B}, te.A.H, te.A.V)
 		evChangeZoomSp(t, w, []ID{tw.A, tw.B}, tw.A.H)
 		evMergeExt(t, w, []ID{te.A, te.B}, te.A.H, te.A.V)
 		evNLayer(t, w, []ID{te.A, te.B}, 0, 1)
+		// the twins as RESULTS: the east neighbours of the voxels one column to the west
+		wa, wb := te.A, te.B
+		wa.X--
+		wb.X--
+		evNLayer(t, w, []ID{wa, wb}, 1, 0)
+		evNLayer(t, w, []ID{wb, wa}, 1, 0)
 	}
 }
 
